@@ -29,9 +29,9 @@ KF_DISMAX = ("TopDocs::order_by_score on a top-level DisjunctionMaxQuery of term
 
 
 # F38 and F42 are repaired in /repo; the texts are kept so that a regression is reported in the same words
-KF_NOFIELDNORM = ("TopDocs by score on a field indexed WithFreqs without fieldnorms: the postings serializer writes block-WAND "
-                  "parameters (0,0) for full blocks, so their block-max score is 0 and block-WAND / the pruning term scorer skips "
-                  "blocks that hold better documents")
+KF_NOFIELDNORM = ("TopDocs by score on a field indexed WithFreqs without fieldnorms misses documents with strictly better scores: a "
+                  "block-max bound is not an upper bound for the constant norm (block-WAND parameters (0,0) of full blocks - repaired as "
+                  "F38 - or Bm25Weight::max_score for the unloaded last block of a posting list)")
 
 
 KF_MERGETIES = ("TopDocs over several segments breaks a tie on the sort key by the larger DocAddress: merge_top_k pushes the segment hits "
@@ -81,10 +81,10 @@ def classify(diag, ev):
         return "C06: " + why
     q = diag.get("q", {})
     key = diag.get("key", {})
-    if only_tie_order_differs(diag):
-        return "C06 top-K: " + KF_MERGETIES
     if uses_field(q, "nf") and key.get("kind") in ("score", "tweak_mul", "pair"):
         return "C06 top-K: " + KF_NOFIELDNORM
+    if only_tie_order_differs(diag):
+        return "C06 top-K: " + KF_MERGETIES
     if is_toplevel_term_dismax(q) and key.get("kind") in ("score", "tweak_mul", "pair"):
         return "C06 top-K: " + KF_DISMAX
     return (f"C06 top-K: TopDocs(limit, offset) ordered by {key.get('kind')} ({'/'.join(diag.get('cmp', []))}) is not entries "
